@@ -244,6 +244,11 @@ def replay(ctx, data):
         tv = P.settings.tvec
         print("settings.tvec:", len(tv), tv[0], tv[-1], "requested", c)
         return 0 if abs(tv[0] - c["start"]) < 1e-9 and tv[-1] >= c["end"] - 1e-9 else 1
+    if "spec" in (data.get("replay") or {}) or (data.get("broken") and (data["broken"][0] or {}).get("spec")):
+        return engine_corr.replay_spec(ctx, PROPERTY, data)
+    if not isinstance(c, dict) or "start" not in c:
+        print("nothing to replay in this file:", str(data.get("what"))[:300])
+        return 0
     tv = at.ProjectSettings(sim_start=c["start"], sim_end=c["end"], sim_dt=c["dt"]).tvec
     print("impl:", len(tv), tv[:3], tv[-1], "spacing", np.diff(tv)[:1])
     print("model:", core.drive([f"grid {q(c['start'])} {q(c['end'])} {q(c['dt'])}"]))
